@@ -32,6 +32,9 @@ Proof. revert k; induction l; destruct k; simpl; intros; try congruence. f_equal
 Lemma upd_out {A} (l : list A) k x : length l <= k -> upd l k x = l.
 Proof. revert k; induction l; destruct k; simpl; intros; try lia; auto. f_equal; apply IHl; lia. Qed.
 
+Lemma upd_upd {A} (l : list A) k x y : upd (upd l k x) k y = upd l k y.
+Proof. revert k; induction l; destruct k; simpl; auto. f_equal; auto. Qed.
+
 Lemma nth_error_lt {A} (l : list A) k x : nth_error l k = Some x -> k < length l.
 Proof. intros H; apply nth_error_Some; congruence. Qed.
 
@@ -575,6 +578,354 @@ Section ApiProofs.
     exec base (seed_all V seed ++ script) c
     = exec base (seed_all V seed ++ script) (Cfg (cS c) (cCur c) p' (cRegs c) (cLog c)).
   Proof. rewrite !exec_app, !exec_seed_all. reflexivity. Qed.
+
+  (* ====================================================================== C13 *)
+
+  (* ------------------------------------------------------------------ scripts that do not touch the model's state *)
+  Lemma untouched_step base c c' e :
+    untouched_ev V e = true -> cCur c < base -> base <= length (cS c) -> step base c e = Some c' ->
+    (forall k, k < base -> nth_error (cS c') k = nth_error (cS c) k) /\ cCur c' = cCur c.
+  Proof.
+    intros Hu Hc Hb Hst. destruct c as [S1 cu p rg lg]; simpl in *.
+    destruct e as [r n|r n f|r n f|r|r|g b|g s|r]; simpl in Hst, Hu; try discriminate;
+      try (destruct r as [|i]; try discriminate; simpl in Hst);
+      try (destruct (nth_error S1 _) as [s0|] eqn:E; try discriminate);
+      try (destruct (f rg)); try (destruct (b rg));
+      inversion Hst; subst; simpl; split; auto; intros k Hk;
+      try (rewrite nth_error_upd_ne by lia; auto); try (apply nth_error_app1; lia).
+  Qed.
+
+  Lemma untouched_exec base evs : forall c c',
+    forallb (untouched_ev V) evs = true -> cCur c < base -> base <= length (cS c) -> exec base evs c = Some c' ->
+    (forall k, k < base -> nth_error (cS c') k = nth_error (cS c) k) /\ cCur c' = cCur c.
+  Proof.
+    induction evs as [|e t IH]; intros c c' Hf Hc Hb He.
+    - simpl in He; inversion He; subst; auto.
+    - simpl in Hf. apply andb_true_iff in Hf as (H1 & H2). rewrite exec_cons in He.
+      destruct (step base c e) as [d|] eqn:Es; try discriminate.
+      destruct (untouched_step base c d e H1 Hc Hb Es) as (Hk & Hcur).
+      pose proof (step_length _ _ _ _ Es) as Hl.
+      destruct (IH d c' H2 ltac:(lia) ltac:(lia) He) as (Hk' & Hcur'). split; [|congruence].
+      intros k Hlt. rewrite Hk', Hk; auto.
+  Qed.
+
+  Definition nodraw_ev (e : ev) : bool := match e with EDraw _ _ | ESeed _ _ => false | _ => true end.
+
+  Lemma nodraw_exec base evs : forall c c',
+    forallb nodraw_ev evs = true -> exec base evs c = Some c' -> cPos c' = cPos c.
+  Proof.
+    induction evs as [|e t IH]; intros c c' Hf He.
+    - simpl in He; inversion He; auto.
+    - simpl in Hf. apply andb_true_iff in Hf as (H1 & H2). rewrite exec_cons in He.
+      destruct (step base c e) as [d|] eqn:Es; try discriminate. rewrite (IH d c' H2 He).
+      destruct c as [S1 cu p rg lg]; simpl in *.
+      destruct e as [r n|r n f|r n f|r|r|g b|g s|r]; simpl in Es, H1; try discriminate;
+        try (destruct (nth_error S1 _) as [s0|]; try discriminate); try (destruct (f rg));
+        inversion Es; subst; auto.
+  Qed.
+
+  Lemma forallb_app_true {A} (f : A -> bool) l1 l2 : forallb f l1 = true -> forallb f l2 = true -> forallb f (l1 ++ l2) = true.
+  Proof. intros; rewrite forallb_app; apply andb_true_iff; auto. Qed.
+
+  Lemma forallb_map_true {A B} (f : B -> bool) (g : A -> B) l : (forall x, f (g x) = true) -> forallb f (map g l) = true.
+  Proof. intros H; induction l; simpl; auto. rewrite H; auto. Qed.
+
+  Lemma estimate_untouched tvar modelvar tin ips :
+    forallb (untouched_ev V) (estimate_script V tvar modelvar tin ips) = true
+    /\ forallb nodraw_ev (estimate_script V tvar modelvar tin ips) = true.
+  Proof.
+    unfold estimate_script. split; simpl; (apply forallb_app_true; [apply forallb_map_true; auto | reflexivity]).
+  Qed.
+
+  (* estimate: the model's State object is left EXACTLY as it was, the pointer and the generators too *)
+  Theorem estimate_pure tvar modelvar tin ips s p c' :
+    api_call (estimate_script V tvar modelvar tin ips) s p = Some c' ->
+    nth_error (cS c') 0 = Some s /\ cCur c' = 0 /\ cPos c' = p.
+  Proof.
+    intros H. unfold ApiModel.api_call in H. destruct (estimate_untouched tvar modelvar tin ips) as (Hu & Hn).
+    destruct (untouched_exec 1 _ (Cfg [s] 0 p [] []) c' Hu ltac:(simpl; lia) ltac:(simpl; lia) H) as (Hk & Hc).
+    split; [rewrite Hk by lia; reflexivity|]. split; [exact Hc|]. apply (nodraw_exec _ _ _ _ Hn H).
+  Qed.
+
+  Lemma scipy_untouched data xi res ivars opt :
+    forallb (untouched_ev V) (scipy_script V data xi res ivars opt) = true.
+  Proof.
+    unfold scipy_script. simpl. apply forallb_app_true; [apply forallb_map_true; auto|].
+    simpl. apply forallb_app_true; [apply forallb_map_true; auto|].
+    apply forallb_app_true; [apply forallb_map_true; auto|]. reflexivity.
+  Qed.
+
+  (* scipy_minimize: the model's State object is left EXACTLY as it was *)
+  Theorem scipy_state data xi res ivars opt s p c' :
+    api_call (scipy_script V data xi res ivars opt) s p = Some c' ->
+    nth_error (cS c') 0 = Some s /\ cCur c' = 0.
+  Proof.
+    intros H. unfold ApiModel.api_call in H.
+    destruct (untouched_exec 1 _ (Cfg [s] 0 p [] []) c' (scipy_untouched data xi res ivars opt) ltac:(simpl; lia) ltac:(simpl; lia) H) as (Hk & Hc).
+    split; [rewrite Hk by lia; reflexivity | exact Hc].
+  Qed.
+
+  (* ------------------------------------------------------------------ scripts that only read the model's state (simulate) *)
+  Theorem reads_only_pure script s p c' :
+    forallb (writes_in V (fun _ => false)) script = true -> simOn top s s ->
+    api_call script s p = Some c' ->
+    exists s', model_state V c' = Some s' /\ simOn top s' s /\ forall n, snd (sread s' n) = snd (sread s n).
+  Proof.
+    intros Hf Hwf H. unfold ApiModel.api_call in H.
+    assert (HW : forall n : nat, (fun _ : nat => false) n = true -> top n = false) by (intros; discriminate).
+    assert (Hp0 : prot top 1 [s] [s]).
+    { apply prot_refl. intros k t Hk E. destruct k; [|lia]. inversion E; subst; auto. }
+    destruct (frame_exec top (fun _ => false) 1 [s] script HW Hf (Cfg [s] 0 p [] []) c' Hp0 H) as (Hp & Hc).
+    simpl in Hc. destruct (Hp 0 s ltac:(lia) eq_refl) as (s' & E & Hsim).
+    exists s'. unfold model_state. rewrite Hc. split; auto. split; auto.
+    intros n. eapply get_determined; eauto. apply all_top_forallb. reflexivity.
+  Qed.
+
+  (* ------------------------------------------------------------------ MCMC personalisation leaves a clean model *)
+  Definition mem (l : list nat) : view := fun m => existsb (Nat.eqb m) l.
+  Definition noclone_ev (e : ev) : bool := match e with EClone _ => false | _ => true end.
+
+  Lemma mem_In l n : mem l n = true <-> In n l.
+  Proof.
+    unfold mem. rewrite existsb_exists. split.
+    - intros (x & Hin & E). apply Nat.eqb_eq in E; subst; auto.
+    - intros H; exists n; split; auto. apply Nat.eqb_refl.
+  Qed.
+
+  Lemma noclone_exec base evs : forall c c',
+    forallb noclone_ev evs = true -> exec base evs c = Some c' -> length (cS c') = length (cS c).
+  Proof.
+    induction evs as [|e t IH]; intros c c' Hf He.
+    - simpl in He; inversion He; auto.
+    - simpl in Hf. apply andb_true_iff in Hf as (H1 & H2). rewrite exec_cons in He.
+      destruct (step base c e) as [d|] eqn:Es; try discriminate. rewrite (IH d c' H2 He).
+      destruct c as [S1 cu p rg lg]; simpl in *.
+      destruct e as [r n|r n f|r n f|r|r|g b|g s|r]; simpl in Es, H1; try discriminate;
+        try (destruct (nth_error S1 _) as [s0|]; try discriminate); try (destruct (f rg)); try (destruct (b rg));
+        inversion Es; subst; simpl; rewrite ?length_upd; auto.
+  Qed.
+
+  Lemma wf_write s n v : simOn top s s -> simOn top (swrite s n v) (swrite s n v).
+  Proof.
+    intros H. eapply sim_mono; [|apply set_agree; eauto]. intros m _. unfold vadd, ApiModel.top. apply orb_true_r.
+  Qed.
+
+  Fixpoint unset_all (s : st V) (ns : list nat) : st V :=
+    match ns with [] => s | n :: t => unset_all (swrite s n None) t end.
+
+  Lemma exec_unsets base (cu k : nat) : forall ns S0 p rg lg s rest,
+    nth_error S0 (base + k) = Some s ->
+    exists lg', exec base (map (fun n => ESet (Loc k) n (konst V None)) ns ++ rest) (Cfg S0 cu p rg lg)
+                = exec base rest (Cfg (upd S0 (base + k) (unset_all s ns)) cu p rg lg').
+  Proof.
+    induction ns as [|n t IH]; intros S0 p rg lg s rest E; simpl.
+    - exists lg. rewrite (upd_same _ _ _ E). reflexivity.
+    - rewrite E. unfold konst.
+      destruct (IH (upd S0 (base + k) (swrite s n None)) p rg ((KSet, base + k, n) :: lg) (swrite s n None) rest) as (lg' & Hx).
+      { apply nth_error_upd_eq. eapply nth_error_lt; eauto. }
+      exists lg'. unfold konst in Hx. rewrite Hx. rewrite upd_upd. reflexivity.
+  Qed.
+
+  Lemma unset_all_sim (P : view) ns : forall s,
+    simOn top s s -> (forall n, In n ns -> P n = false) -> simOn P (unset_all s ns) s /\ simOn top (unset_all s ns) (unset_all s ns).
+  Proof.
+    induction ns as [|n t IH]; simpl; intros s Hwf HP.
+    - split; auto. eapply sim_mono; [|eauto]. reflexivity.
+    - assert (Hw : simOn top (swrite s n None) (swrite s n None)).
+      { apply wf_write; auto. }
+      destruct (IH (swrite s n None) Hw ltac:(auto)) as (H1 & H2). split; auto.
+      apply sim_trans with (swrite s n None); auto. apply set_frame; auto.
+      eapply sim_mono; [|eauto]. reflexivity.
+  Qed.
+
+  Lemma unset_all_reads ns : forall s n,
+    simOn top s s -> (forall m, In m ns -> indep m = true) -> In n ns -> snd (sread (unset_all s ns) n) = None.
+  Proof.
+    induction ns as [|m t IH]; simpl; intros s n Hwf Hi Hn; [contradiction|]. destruct Hn as [->|Hin].
+    - (* n written now; later writes either re-write it or leave it alone *)
+      assert (Hw : simOn top (swrite s n None) (swrite s n None)).
+      { apply wf_write; auto. }
+      destruct (in_dec Nat.eq_dec n t) as [Hin|Hnin]; [apply IH; auto|].
+      assert (Hfr : simOn (mem [n]) (unset_all (swrite s n None) t) (swrite s n None)).
+      { apply unset_all_sim; auto. intros k Hk. destruct (mem [n] k) eqn:E; auto.
+        apply mem_In in E. destruct E as [->|[]]. contradiction. }
+      rewrite (get_determined _ _ _ n Hfr).
+      + eapply set_get; eauto.
+      + rewrite anc_indep by auto. simpl. rewrite Nat.eqb_refl. reflexivity.
+    - assert (Hw : simOn top (swrite s m None) (swrite s m None)).
+      { apply wf_write; auto. }
+      apply IH; auto.
+  Qed.
+
+  Theorem mcmc_clean (P : view) data init_ind body dvars ivars s p c' :
+    simOn top s s ->
+    (forall n, In n (dvars ++ ivars) -> P n = false /\ indep n = true) ->
+    (forall nv, In nv data -> In (fst nv) (dvars ++ ivars)) ->
+    (forall nf, In nf init_ind -> In (fst nf) (dvars ++ ivars)) ->
+    forallb (fun e => writes_in V (mem (dvars ++ ivars)) e && noclone_ev e) body = true ->
+    api_call (mcmc_script V data init_ind body dvars ivars) s p = Some c' ->
+    exists sf, model_state V c' = Some sf /\ cCur c' = 1 /\
+               simOn P sf s /\                                      (* parameters, hyper-parameters, population variables *)
+               forall n, In n (dvars ++ ivars) -> snd (sread sf n) = None.  (* data and individual variables unset *)
+  Proof.
+    intros Hwf Hvars Hdata Hinit Hbody H. unfold ApiModel.api_call, mcmc_script in H.
+    set (A := map (fun nv => ESet Cur (fst nv) (konst V (snd nv))) data
+              ++ map (fun nf => ESet Cur (fst nf) (snd nf)) init_ind ++ body) in *.
+    replace (map (fun nv => ESet Cur (fst nv) (konst V (snd nv))) data
+              ++ map (fun nf => ESet Cur (fst nf) (snd nf)) init_ind ++ body ++ terminate_script V 0 dvars ivars)
+      with (A ++ terminate_script V 0 dvars ivars) in H by (unfold A; rewrite <- !app_assoc; reflexivity).
+    rewrite exec_app in H. destruct (exec 1 A (Cfg [s] 0 p [] [])) as [d|] eqn:EA; try discriminate.
+    set (W := mem (dvars ++ ivars)).
+    assert (HA : forallb (fun e => writes_in V W e && noclone_ev e) A = true).
+    { unfold A. apply forallb_app_true; [|apply forallb_app_true; auto].
+      - apply forallb_forall. intros e He. apply in_map_iff in He as (nv & <- & Hin). simpl.
+        rewrite andb_true_r. apply mem_In; auto.
+      - apply forallb_forall. intros e He. apply in_map_iff in He as (nv & <- & Hin). simpl.
+        rewrite andb_true_r. apply mem_In; auto. }
+    assert (HA1 : forallb (writes_in V W) A = true).
+    { apply forallb_forall. intros e He. rewrite forallb_forall in HA. apply HA in He. apply andb_true_iff in He; tauto. }
+    assert (HA2 : forallb noclone_ev A = true).
+    { apply forallb_forall. intros e He. rewrite forallb_forall in HA. apply HA in He. apply andb_true_iff in He; tauto. }
+    assert (HW : forall n, W n = true -> P n = false) by (intros n Hn; apply mem_In in Hn; apply Hvars; auto).
+    assert (Hp0 : prot P 1 [s] [s]).
+    { apply prot_refl. intros k t Hk E. destruct k; [|lia]. inversion E; subst. eapply sim_mono; [|eauto]. reflexivity. }
+    destruct (frame_exec P W 1 [s] A HW HA1 (Cfg [s] 0 p [] []) d Hp0 EA) as (Hp & Hc). simpl in Hc.
+    pose proof (noclone_exec 1 A _ _ HA2 EA) as Hlen. simpl in Hlen.
+    destruct (Hp 0 s ltac:(lia) eq_refl) as (s1 & E1 & Hs1).
+    (* d is well-formed *)
+    assert (Hd : crelT d d).
+    { pose proof (exec_cong 1 A (Cfg [s] 0 p [] []) (Cfg [s] 0 p [] [])) as Hx. rewrite EA in Hx. apply Hx.
+      apply wf_crelT. intros k t E. destruct k as [|k]; simpl in E; [inversion E; subst; auto|destruct k; discriminate]. }
+    assert (Hwf1 : simOn top s1 s1).
+    { destruct Hd as (vs & Ht & (L1 & L2 & Hs) & _).
+      destruct (nth_error vs 0) as [v|] eqn:Ev. 2:{ apply nth_error_None in Ev. lia. }
+      eapply sim_mono; [|eapply Hs; eauto]. intros; eapply Ht; eauto. }
+    destruct d as [S1 cu1 p1 rg1 lg1]. simpl in Hc, Hlen, E1. subst cu1.
+    destruct S1 as [|x [|y S1]]; simpl in Hlen; try discriminate. simpl in E1. inversion E1; subst x.
+    (* the termination script *)
+    assert (Hcl : simOn top (sclone s1) (sclone s1)).
+    { eapply sim_refl_l. apply clone_isolated; eauto. }
+    unfold terminate_script in H. rewrite exec_cons in H.
+    change (step 1 (Cfg [s1] 0 p1 rg1 lg1) (EClone Cur))
+      with (Some (Cfg ([s1] ++ [sclone s1]) 0 p1 rg1 ((KClone, 0, 1) :: lg1))) in H.
+    cbv beta iota in H.
+    destruct (exec_unsets 1 0 0 (dvars ++ ivars) ([s1] ++ [sclone s1]) p1 rg1 ((KClone, 0, 1) :: lg1) (sclone s1)
+                          [EReplace (Loc 0)] eq_refl) as (lg' & Hx).
+    rewrite Hx in H. simpl in H. inversion H; subst c'; clear H Hx.
+    exists (unset_all (sclone s1) (dvars ++ ivars)). unfold model_state; simpl. split; auto. split; auto.
+    destruct (unset_all_sim P (dvars ++ ivars) (sclone s1) Hcl ltac:(intros; apply Hvars; auto)) as (Hu & _).
+    split.
+    - apply sim_trans with (sclone s1); auto. apply sim_trans with s1; auto.
+      apply clone_isolated. eapply sim_mono; [|eauto]. reflexivity.
+    - intros n Hn. apply unset_all_reads; auto. intros m Hm. apply Hvars; auto.
+  Qed.
+
+  (* ------------------------------------------------------------------ history independence *)
+  (* what the caller gets back (everything read / drawn), what was done, where the generators and the pointer are *)
+  Definition same_outcome (c c' : cfg) : Prop :=
+    cRegs c = cRegs c' /\ cLog c = cLog c' /\ cPos c = cPos c' /\ cCur c = cCur c'.
+
+  Lemma crel_single (kept : view) s s' p : simOn kept s s' -> crel [kept] 0 (Cfg [s] 0 p [] []) (Cfg [s'] 0 p [] []).
+  Proof.
+    intros Hs. unfold crel; simpl. split; [|repeat split; auto].
+    unfold sims; simpl. split; [reflexivity|]. split; [reflexivity|].
+    intros k v t t' Hv Ht Ht'. destruct k as [|[|k]]; simpl in *; try discriminate.
+    inversion Hv; inversion Ht; inversion Ht'; subst; auto.
+  Qed.
+
+  (* a call whose every read is determined by (kept variables of the model's state + what the call itself assigned)
+     returns the same thing on any two model states that agree on the kept variables, whatever else they hold *)
+  Theorem history_independent (kept : view) script s s' p :
+    simOn kept s s' ->
+    flow_all 1 ([kept], 0) script <> None ->
+    orel same_outcome (api_call script s p) (api_call script s' p).
+  Proof.
+    intros Hs Hf. unfold ApiModel.api_call.
+    pose proof (flow_sound 1 script [kept] 0 _ _ (crel_single kept s s' p Hs)) as Hx.
+    destruct (flow_all 1 ([kept], 0) script) as [[vs' cur']|]; [|congruence].
+    destruct (exec 1 script (Cfg [s] 0 p [] [])) as [d|], (exec 1 script (Cfg [s'] 0 p [] [])) as [d'|]; simpl in *; auto.
+    destruct Hx as (_ & Hc & Hc' & Hp & Hr & Hl). unfold same_outcome. repeat split; congruence.
+  Qed.
+
+  (* views that contain a set U closed under "independent ancestors": every later read passes the check *)
+  Definition covers (U : view) (vs : list view) : Prop :=
+    forall k v, nth_error vs k = Some v -> forall m, U m = true -> v m = true.
+  Definition closed (U : view) : Prop := forall n, forallb U (anc n) = true.
+
+  Lemma forallb_mono (U v : view) l : (forall m, U m = true -> v m = true) -> forallb U l = true -> forallb v l = true.
+  Proof. intros H Hf. rewrite forallb_forall in *. auto. Qed.
+
+  Lemma covers_upd U vs k (v : view) : covers U vs -> (forall m, U m = true -> v m = true) -> covers U (upd vs k v).
+  Proof.
+    intros H Hv j w Hw. destruct (Nat.eq_dec j k) as [->|].
+    - assert (k < length vs) by (apply nth_error_lt in Hw; rewrite length_upd in Hw; auto).
+      rewrite nth_error_upd_eq in Hw by auto. inversion Hw; subst; auto.
+    - rewrite nth_error_upd_ne in Hw by auto. eauto.
+  Qed.
+
+  Lemma covers_app U vs (v : view) : covers U vs -> (forall m, U m = true -> v m = true) -> covers U (vs ++ [v]).
+  Proof.
+    intros H Hv j w Hw. destruct (lt_dec j (length vs)).
+    - rewrite nth_error_app1 in Hw by auto. eauto.
+    - rewrite nth_error_app2 in Hw by lia. destruct (j - length vs) as [|[|?]]; simpl in Hw; inversion Hw; subst; auto.
+  Qed.
+
+  Lemma flow_covers_step base U vs cur e :
+    closed U -> covers U vs -> exists vs' cur', flow base (vs, cur) e = Some (vs', cur') /\ covers U vs'.
+  Proof.
+    intros HU H. destruct e as [r n|r n f|r n f|r|r|g b|g s|r]; simpl;
+      try (destruct (nth_error vs (resolve base cur r)) as [v|] eqn:Ev); eauto.
+    - rewrite (forallb_mono U v (anc n)) by (eauto || apply HU). eauto.
+    - do 2 eexists; split; eauto. apply covers_upd; auto. intros m Hm; unfold vadd. rewrite (H _ _ Ev m Hm). apply orb_true_r.
+    - do 2 eexists; split; eauto. apply covers_app; eauto.
+  Qed.
+
+  Lemma flow_covers base U evs : forall vs cur,
+    closed U -> covers U vs -> flow_all base (vs, cur) evs <> None.
+  Proof.
+    induction evs as [|e t IH]; intros vs cur HU H; [simpl; congruence|]. rewrite flow_all_cons.
+    destruct (flow_covers_step base U vs cur e HU H) as (vs1 & cur1 & E & H1). rewrite E. eauto.
+  Qed.
+
+  Definition vadds (l : list nat) (v : view) : view := fold_left (fun v n => vadd n v) l v.
+
+  Lemma flow_sets_cur {A} (f : A -> nat) (g : A -> regs V -> option V) l : forall (v : view) rest,
+    flow_all 1 ([v], 0) (map (fun x => ESet Cur (f x) (g x)) l ++ rest) = flow_all 1 ([vadds (map f l) v], 0) rest.
+  Proof. induction l as [|x t IH]; intros v rest; [reflexivity|]. simpl map. rewrite <- app_comm_cons, flow_all_cons. simpl. apply IH. Qed.
+
+  Lemma flow_sets_loc0 {A} (f : A -> nat) (g : A -> regs V -> option V) l : forall (k0 v : view) rest,
+    flow_all 1 ([k0; v], 0) (map (fun x => ESet (Loc 0) (f x) (g x)) l ++ rest) = flow_all 1 ([k0; vadds (map f l) v], 0) rest.
+  Proof. induction l as [|x t IH]; intros k0 v rest; [reflexivity|]. simpl map. rewrite <- app_comm_cons, flow_all_cons. simpl. apply IH. Qed.
+
+  (* estimate: the trajectory depends on the kept variables, the time points and the individual parameters GIVEN, provided
+     the variable read ("model") has no other independent ancestor (no dependence on the observations left in the state) *)
+  Theorem estimate_history_independent (kept : view) tvar modelvar tin ips s s' p :
+    simOn kept s s' ->
+    forallb (vadds (map fst ips) (vadd tvar kept)) (anc modelvar) = true ->
+    orel same_outcome (api_call (estimate_script V tvar modelvar tin ips) s p)
+                      (api_call (estimate_script V tvar modelvar tin ips) s' p).
+  Proof.
+    intros Hs Ha. apply history_independent with kept; auto.
+    unfold estimate_script. rewrite <- app_comm_cons, flow_all_cons. simpl flow.
+    rewrite <- app_comm_cons, flow_all_cons. simpl flow.
+    cbv beta iota. rewrite app_nil_l. rewrite (flow_sets_loc0 fst (fun nv => konst V (snd nv))). simpl. rewrite Ha. congruence.
+  Qed.
+
+  (* MCMC personalisation: once ALL data and individual variables have been assigned by the call itself, nothing that
+     follows (sampler steps, termination) can depend on what the model's state held for them before *)
+  Theorem mcmc_history_independent (kept : view) (data : list (nat * option V)) (init_ind : list (nat * (regs V -> option V)))
+          rest s s' p :
+    simOn kept s s' ->
+    closed (vadds (map fst init_ind) (vadds (map fst data) kept)) ->
+    orel same_outcome
+         (api_call (map (fun nv => ESet Cur (fst nv) (konst V (snd nv))) data ++ map (fun nf => ESet Cur (fst nf) (snd nf)) init_ind ++ rest) s p)
+         (api_call (map (fun nv => ESet Cur (fst nv) (konst V (snd nv))) data ++ map (fun nf => ESet Cur (fst nf) (snd nf)) init_ind ++ rest) s' p).
+  Proof.
+    intros Hs HU. apply history_independent with kept; auto.
+    rewrite (flow_sets_cur fst (fun nv => konst V (snd nv))). rewrite (flow_sets_cur fst snd).
+    apply flow_covers with (U := vadds (map fst init_ind) (vadds (map fst data) kept)); auto.
+    intros k v Hv m Hm. destruct k as [|[|k]]; simpl in Hv; try discriminate. inversion Hv; subst; auto.
+  Qed.
 
 End ApiProofs.
 
